@@ -413,11 +413,16 @@ void c07_run(const Case &c, Result &r) {
     }
   }
   (void)logmark;
-  // whatever happened, the object must still be usable and freeable
+  // whatever happened, the object must still be usable and freeable: a valid value edit (drops the stored
+  // solution, keeps whatever factorization the object believes it has) followed by both direct solves
   if (r.verdict == PASS) {
     int st = 0;
+    Q nv(5, 3);
     mpq_QSset_param(p, QS_PARAM_SIMPLEX_MAX_ITERATIONS, 500);
+    if (mpq_QSget_colcount(p) > 0) mpq_QSchange_objcoef(p, 0, nv.get_mpq_t());
     mpq_QSopt_dual(p, &st);
+    if (mpq_QSget_rowcount(p) > 0) mpq_QSchange_rhscoef(p, 0, nv.get_mpq_t());
+    mpq_QSopt_primal(p, &st);
   }
   mpq_QSfree_prob(p);
   r.nontrivial = true;
